@@ -617,8 +617,12 @@ class World:
                 return True
         return False
 
-    def quiesce(self, limit: int = 400) -> int:
+    quiesce_limit = 400
+
+    def quiesce(self, limit: int = None) -> int:
         """Step the manager until it idles at select with nothing left to read."""
+        if limit is None:
+            limit = self.quiesce_limit
         n = 0
         while True:
             if self.mgr_task.done:
